@@ -25,6 +25,7 @@ type c38Case struct {
 	Pool      []ck.TxDesc `json:"pool"`      // transactions for the mempool, resolved one after another on the best state (so later ones may chain on earlier ones)
 	Conflicts []int       `json:"conflicts"` // indexes into Pool of which a second, conflicting version is submitted too
 	Rounds    int         `json:"rounds"`    // how many blocks the node proposes in a row
+	Multi     int         `json:"multi"`     // how many further versions of each conflicting transaction are submitted (1..3)
 }
 
 var c38Kinds = []string{"spend", "spend", "spend", "vote", "veto", "issue", "xfer", "retire"}
@@ -64,6 +65,7 @@ func c38Gen(t *rapid.T) c38Case {
 		}
 	}
 	c.Rounds = rapid.IntRange(1, 3).Draw(t, "rounds")
+	c.Multi = rapid.IntRange(1, 3).Draw(t, "multi")
 	return c
 }
 
@@ -85,33 +87,53 @@ func c38Exec(c c38Case, x *pbt.Ctx) error {
 		return fmt.Errorf("HARNESS: best is #%d, expected the chain tip", best)
 	}
 	myKey := ck.PubHex(0)
-	reward, conflict, chained := false, false, false
+	reward, conflict, chained, manyWay := false, false, false, false
 
 	for round := 0; round < c.Rounds; round++ {
 		parent := w.Blocks[best]
 		h := parent.Block.Height + 1
 		// the mempool: candidate transactions resolved on the best state (a scratch block that is never delivered)
 		var submitted []*types.Tx
-		conflictsWith := map[bc.Hash]bc.Hash{}
+		group := map[bc.Hash]bc.Hash{} // transaction -> the contested output it competes for
+		groupSize := map[bc.Hash]int{} // contested output -> number of further versions submitted
 		if round == 0 && len(c.Pool) > 0 {
 			cand := w.Add(ck.BlockDesc{Parent: best, Txs: c.Pool})
 			txs := w.Blocks[cand].Block.Transactions[1:]
 			submitted = append(submitted, txs...)
-			// a second version of some of them: same inputs, other outputs
-			alt := make([]ck.TxDesc, len(c.Pool))
-			copy(alt, c.Pool)
-			for i := range alt {
-				alt[i].N++
-				alt[i].Amt++
+			// further versions of some of them: same inputs, other outputs (two, three or four
+			// transactions then compete for one output)
+			multi := c.Multi
+			if multi < 1 {
+				multi = 1
 			}
-			cand2 := w.Add(ck.BlockDesc{Parent: best, Txs: alt})
-			txs2 := w.Blocks[cand2].Block.Transactions[1:]
-			for _, ci := range c.Conflicts {
-				if ci < len(txs) && ci < len(txs2) && txs[ci].ID != txs2[ci].ID && len(txs[ci].SpentOutputIDs) > 0 && len(txs2[ci].SpentOutputIDs) > 0 && txs[ci].SpentOutputIDs[0] == txs2[ci].SpentOutputIDs[0] {
-					submitted = append(submitted, txs2[ci])
-					conflictsWith[txs2[ci].ID] = txs[ci].ID
-					conflictsWith[txs[ci].ID] = txs2[ci].ID
-					conflict = true
+			if multi > 3 {
+				multi = 3
+			}
+			for v := 1; v <= multi; v++ {
+				alt := make([]ck.TxDesc, len(c.Pool))
+				copy(alt, c.Pool)
+				for i := range alt {
+					alt[i].N += v
+					alt[i].Amt += v
+				}
+				candV := w.Add(ck.BlockDesc{Parent: best, Txs: alt})
+				txsV := w.Blocks[candV].Block.Transactions[1:]
+				for _, ci := range c.Conflicts {
+					if ci < len(txs) && ci < len(txsV) && len(txs[ci].SpentOutputIDs) > 0 && len(txsV[ci].SpentOutputIDs) > 0 && txs[ci].SpentOutputIDs[0] == txsV[ci].SpentOutputIDs[0] {
+						if _, dup := group[txsV[ci].ID]; dup || txsV[ci].ID == txs[ci].ID {
+							continue
+						}
+						submitted = append(submitted, txsV[ci])
+						group[txsV[ci].ID] = txs[ci].SpentOutputIDs[0]
+						group[txs[ci].ID] = txs[ci].SpentOutputIDs[0]
+						groupSize[txs[ci].SpentOutputIDs[0]]++
+						conflict = true
+					}
+				}
+			}
+			for _, k := range groupSize {
+				if k >= 2 {
+					manyWay = true
 				}
 			}
 			for i, tx := range txs {
@@ -174,9 +196,16 @@ func c38Exec(c c38Case, x *pbt.Ctx) error {
 			if included[id] {
 				continue
 			}
-			other, hasConflict := conflictsWith[id]
-			if hasConflict && included[other] {
-				continue
+			if out, hasConflict := group[id]; hasConflict {
+				rivalIncluded := false
+				for other, o := range group {
+					if o == out && other != id && included[other] {
+						rivalIncluded = true
+					}
+				}
+				if rivalIncluded {
+					continue
+				}
 			}
 			parentExcluded := false
 			for _, spent := range tx.SpentOutputIDs {
@@ -214,6 +243,9 @@ func c38Exec(c c38Case, x *pbt.Ctx) error {
 	}
 	if conflict {
 		x.Class("pool-with-conflict")
+	}
+	if manyWay {
+		x.Class("pool-with-three-or-more-spends-of-one-output")
 	}
 	if chained {
 		x.Class("pool-with-chain")
